@@ -7,7 +7,7 @@
 
 Exit codes: 0 held (KNOWN-FINDING lines allowed), 1 VIOLATION, 2 inconclusive.
 """
-import array, json, os, shutil, subprocess, sys, time
+import array, atexit, json, os, shutil, subprocess, sys, time
 
 VERIF = os.path.dirname(os.path.dirname(os.path.abspath(__file__)))
 HARNESS = os.path.join(VERIF, "harness")
@@ -154,6 +154,12 @@ def main():
         sys.exit(2)
     conf = CONF[pid]
     os.makedirs(os.path.join(BUILD, "run"), exist_ok=True)
+    # Scratch directories of the code under test (embedded etcd, leveldb, test clusters) live under a per-run
+    # directory that is removed when the run ends, also when a shard was killed or exited at its first violation.
+    scratch = os.path.join(BUILD, "tmp", "%s-%d" % (pid, os.getpid()))
+    os.makedirs(scratch, exist_ok=True)
+    ENV["TMPDIR"] = scratch
+    atexit.register(shutil.rmtree, scratch, True)
     os.makedirs(os.path.join(BUILD, "stats"), exist_ok=True)
     os.makedirs(os.path.join(BUILD, "logs"), exist_ok=True)
     replay_dir = os.path.join(VERIF, "replays", pid)
